@@ -326,12 +326,112 @@ def single_lookup_cases(ctx, S):
     ctx.count("single lookups: kind x known/absent name x direct/subroutine x fold", n)
 
 
+CLOSURE_SHAPES = {
+    # closure without captures, lookups inside
+    "no-capture": """
+@move{MDEC}
+def maker():
+    def reader(a: int):
+        return ({LOOKUPS}, a)
+    return reader
+""",
+    # closure capturing looked-up values only
+    "captures-lookups": """
+@move{MDEC}
+def maker():
+    v = {L0}
+    w = {L1}
+    def reader(a: int):
+        return (v, w, a)
+    return reader
+""",
+    # closure doing lookups AND capturing ordinary compile-time-known values
+    "captures-literals": """
+@move{MDEC}
+def maker():
+    offset = 3
+    scale = 2.0
+    def reader(a: int):
+        return ({LOOKUPS}, offset + a, scale)
+    return reader
+""",
+    # closure capturing a literal, a looked-up value and another closure that looks up
+    "captures-closure-and-literal": """
+@move{MDEC}
+def maker():
+    offset = 5
+    v = {L0}
+    def inner(b: int):
+        return ({L1}, b + offset)
+    def reader(a: int):
+        return (inner(a), v, offset)
+    return reader
+""",
+    # closure capturing a run-time parameter of its maker
+    "captures-parameter": """
+@move{MDEC}
+def maker(k: int):
+    def reader(a: int):
+        return ({LOOKUPS}, a + k)
+    return reader
+""",
+}
+
+CLOSURE_ROOT = """
+@move{DEC}
+def root(a: int):
+    reader = maker({MARG})
+    return reader(a)
+"""
+
+
+def closure_cases(ctx, S):
+    """fixed closure shapes (no capture / captured lookups / captured literals / captured closure + literal / captured parameter), the maker
+    folded and not folded before the injection, the root compiled with the spec with and without the trailing fold, every lookup kind inside"""
+    from bloqade.shuttle.arch import ArchSpecInterpreter
+    from bloqade.shuttle.prelude import move
+    calls = {k: f'{f}({kw}="{names[0]}")' for k, (f, kw, names) in LK.items()}
+    kinds = list(LK)
+    n = 0
+    for shape, tmpl in CLOSURE_SHAPES.items():
+        for i, k in enumerate(kinds):
+            l0, l1 = calls[k], calls[kinds[(i + 1) % len(kinds)]]
+            for mdec in ("", "(fold=False)"):
+                body = tmpl.replace("{LOOKUPS}", f"{l0}, {l1}").replace("{L0}", l0).replace("{L1}", l1).replace("{MDEC}", mdec)
+                body += CLOSURE_ROOT.replace("{MARG}", "4" if shape == "captures-parameter" else "")
+                for fold in (True, False):
+                    ctx.evaluations += 1
+                    n += 1
+                    rep = {"closure_src": body, "fold": fold}
+                    try:
+                        a = ("ok", kernels.define(body.replace("{DEC}", f"(arch_spec=S, fold={fold})"), S=S)["root"](1))
+                    except Exception as e:
+                        a = ("err", type(e).__name__)
+                    try:
+                        b = ("ok", ArchSpecInterpreter(move, arch_spec=S).run(kernels.define(body.replace("{DEC}", ""), S=S)["root"], (1,)))
+                    except Exception as e:
+                        b = ("err", type(e).__name__)
+                    ta = show_value(a[1], S) if a[0] == "ok" else "ERR:" + a[1]
+                    tb = show_value(b[1], S) if b[0] == "ok" else "ERR:" + b[1]
+                    ctx.hist("closure shapes", shape + ": " + ("same value" if ta == tb and b[0] == "ok" else "both fail" if ta == tb else "DIFFER"))
+                    if b[0] != "ok":
+                        ctx.obligation(f"closure shape {shape} runs under the spec interpreter", False, tb)
+                    elif ta != tb:
+                        ctx.fail({"kind": "behaviour-differs", "closure_shape": shape, "lookup": k, "maker": mdec or "folded", "fold": fold}, rep,
+                                 f"closure shape {shape} ({k}; maker @move{mdec}; root fold={fold}): the compiled kernel gives {ta[:70]}, "
+                                 f"the unspecialised kernel against the spec gives {tb[:70]}")
+                    else:
+                        ctx.nt(("closure", shape, k, mdec, fold))
+    ctx.count("closure shapes x lookup kind x maker folded/not x root fold", n)
+
+
 def run(ctx):
     from bloqade.shuttle.arch import ArchSpecInterpreter
     from bloqade.shuttle.prelude import move
     S = c06_spec()
     handled = reflect_handled(ctx, S)
     single_lookup_cases(ctx, S)
+    closure_cases(ctx, S)
     ctx.rule = ("tables of 2-4 @move kernels (root + subroutines, some recursive with a depth parameter, closures capturing looked-up values, "
                 "closures returned from recursive subroutines and called by the root) mixing the four lookup kinds (6% absent names) with "
                 "constants, tuples, variables; root compiled with arch_spec (fold on and off) and called through ir.Method.__call__ (plain "
@@ -555,6 +655,17 @@ def replay(data):
             b = "ERR"
         known = inp["name_known_under_this_kind"]
         return a != b or (not known and a != "ERR") or (known and a == "ERR"), f"compiled: {a[:60]}; spec interpreter: {b[:60]}"
+    if "closure_src" in inp:
+        from bloqade.shuttle.arch import ArchSpecInterpreter
+        from bloqade.shuttle.prelude import move
+        S = c06_spec()
+        src = inp["closure_src"]
+        try:
+            a = show_value(kernels.define(src.replace("{DEC}", f"(arch_spec=S, fold={inp['fold']})"), S=S)["root"](1), S)
+        except Exception as e:
+            a = "ERR:" + type(e).__name__
+        b = show_value(ArchSpecInterpreter(move, arch_spec=S).run(kernels.define(src.replace("{DEC}", ""), S=S)["root"], (1,)), S)
+        return a != b, f"compiled: {a[:80]}; spec interpreter: {b[:80]}"
     if "history_src" in inp:
         S, S2 = c06_spec(), moved_spec()
         specs = {"A": S, "B": S2}
